@@ -185,6 +185,11 @@ def plan_conv(pid, tier, seed):
     # light sweep over all 506 layouts (each against i8 / i64 / u128, f32 / f64, I40F88 / U0F128, codec)
     gens.append(dict(name="convall", profile="unchecked", bin="convsweep", dom="big", per_shard=5000,
                      args=["--topic", topics[1], "--tier", "quick", "--seed", str(seed)]))
+    if pid != "C10":
+        # the same sweep under debug assertions + overflow checks (other random values: seed + 1): the policy forms must not panic
+        # and the results must be the same in every build profile
+        gens.append(dict(name="convallc", profile="checked", bin="convsweep", dom="big", per_shard=5000,
+                         args=["--topic", topics[1], "--tier", "quick", "--seed", str(seed + 1)]))
     rules = {
         "C03": "every ordered pair of the 18 8-bit layouts x (1/64 stratified value pairs + pairwise boundary lattice + values adjacent "
                "to the other operand; thorough: all 65 536 value pairs); 288 cross-width layout pairs (all 25 width pairs, f in {0,w/2,w} "
@@ -203,9 +208,10 @@ def plan_conv(pid, tier, seed):
                "size_of, FRAC_NBITS / INT_NBITS; the name is parsed in TLA+).",
     }
     return dict(
-        bins=["conv", "convsweep"], profiles=["unchecked"], gens=gens, designs=[],
+        bins=["conv", "convsweep"], profiles=["unchecked"] if pid == "C10" else ["unchecked", "checked"], gens=gens, designs=[],
         nontrivial=lambda line: '"a":0,' not in line and '"a":[0],' not in line,
-        rule=rules[pid] + " Plus a light sweep over ALL 506 layouts (each against i8/i64/u128, f32/f64, I40F88/U0F128 and the codec). "
+        rule=rules[pid] + " Plus a light sweep over ALL 506 layouts (each against i8/i64/u128, f32/f64, I40F88/U0F128 and the codec), "
+             "for C03..C05 under both build profiles. "
              "Non-trivial: left operand / source value different from 0; distinct by event content.",
         assumptions=["TLC, BigInt.tla (self-checked) and the harness's JSON encoders are trusted",
                      "isize/usize are 64-bit in the harness (x86-64); ne bytes = le bytes on this target",
